@@ -311,6 +311,10 @@ func TestConstructed(t *testing.T) {
 			}
 		}
 		want := renderBlocks(blocks, false)
+		if emptyItemCount > 0 {
+			kit.R.ClassN("construct:empty-list-item", int64(emptyItemCount))
+			emptyItemCount = 0
+		}
 		if nearMissCount > 0 {
 			kit.R.ClassN("spelling:near-miss-continuation-line", int64(nearMissCount))
 			nearMissCount = 0
